@@ -18,10 +18,10 @@ func init() {
 			ID: "C15",
 			Explanation: "That the deliver-time recomputation of a trade (run with minimum 0 / maximum supply) reproduces the amounts the check phase compared with the user's limit is arithmetic and is NOT decided. Decided: " +
 				"(limit) in every live handler whose data carries MinimumValueToBuy / MaximumValueToSell, that field flows, in the validation phase (outside the deliver block), into a comparison whose failing edge rejects — directly (`value.Cmp(limit)` of the bancor handlers) or as the valueOut (sell) / valueIn (buy) argument of CheckSwap with the matching isBuy constant, whose non-nil response is returned; inside CheckSwap those parameters govern the MinimumValueToBuyReached / MaximumValueToSellReached rejections with the right polarity (calculated < minimum, calculated > maximum); " +
-				"(hopsim) inside the route loops the simulated fee conversion (AddLastSwapStepWithOrders) is guarded by a comparison of tx.GasCoin with the current hop's coin and an IsBaseCoin() test of the hop's other coin — per-hop conditions, not ones computed before the loop; (tags) the amounts printed in tx.return and tx.sell_amount have the same call-result origins as an amount actually credited to / debited from tx.Sender() in the same deliver block; " +
+				"(hopsim) inside the route loops the simulated fee conversion (AddLastSwapStepWithOrders) is guarded by a comparison of tx.GasCoin with the current hop's coin and an IsBaseCoin() test of the hop's other coin — per-hop conditions, not ones computed before the loop; (routedup) the set of pool ids that rejects a repeated pool is created before the route loop and filled inside it (each hop is priced on the untouched pool, so a repeated pool voids the limit); (tags) the amounts printed in tx.return and tx.sell_amount have the same call-result origins as an amount actually credited to / debited from tx.Sender() in the same deliver block; " +
 				"(sellall) a sell-all handler debits the sender's whole balance of the sold coin: the debited amounts have the GetBalance(tx.Sender(), coin to sell) read as an origin and the amount handed to the trade is that balance minus the commission.",
 			Assumptions: stdAssumptions,
-			Rules:       []string{"C15.limit", "C15.checkswap", "C15.tags", "C15.sellall", "C15.hopsim"},
+			Rules:       []string{"C15.limit", "C15.checkswap", "C15.tags", "C15.sellall", "C15.hopsim", "C15.routedup"},
 		},
 		Run: runC15,
 	})
@@ -155,9 +155,10 @@ func blockRejects(b *ssa.BasicBlock) bool {
 }
 
 func runC15(c *core.Ctx) {
-	nLimit, nTags, nHop := 0, 0, 0
+	nLimit, nTags, nHop, nDup := 0, 0, 0, 0
 	for _, m := range LiveModels(c, "C15.limit") {
 		nHop += checkHopSimulation(c, "C15.hopsim", m)
+		nDup += checkRouteDuplicates(c, "C15.routedup", m)
 		_, st := structOfType(m.H.Type)
 		if st == nil {
 			continue
@@ -182,6 +183,7 @@ func runC15(c *core.Ctx) {
 	c.Floor("C15.limit", nLimit, 6, "live handlers with a slippage limit field")
 	c.Floor("C15.tags", nTags, 6, "result tags checked against balance changes")
 	c.Floor("C15.hopsim", nHop, 4, "simulated fee-conversion steps inside route loops")
+	c.Floor("C15.routedup", nDup, 3, "duplicate-pool membership tests in route loops")
 	checkCheckSwap(c)
 }
 
@@ -581,4 +583,90 @@ func checkHopSimulation(c *core.Ctx, rule string, m *RunModel) int {
 			fmt.Sprintf("the simulated fee conversion inside the route loop is not guarded by a comparison of tx.GasCoin with the current hop's coin and an IsBaseCoin() test of the current hop's other coin (gas-vs-hop:%v base-of-hop:%v): the correction is applied to the wrong hop, so the limit is checked against pools that deliver will have moved", gasVsHop, baseOfHop))
 	}
 	return n
+}
+
+// checkRouteDuplicates — each hop of a route is priced on the pool as it is before the trade, so the
+// user's limit is only sound if no pool occurs twice in a route; the handlers reject a repeated
+// pool with a set of the pool ids seen so far. That set has to live across the hops: it must be
+// created before the route loop, inserted into inside it, and its membership test must reject.
+func checkRouteDuplicates(c *core.Ctx, rule string, m *RunModel) int {
+	n := 0
+	for _, b := range m.Fn.Blocks {
+		for _, in := range b.Instrs {
+			lk, ok := in.(*ssa.Lookup)
+			if !ok || !lk.CommaOk || !core.InCycle(b) || m.InDeliver(b) {
+				continue
+			}
+			var mk *ssa.MakeMap
+			for _, o := range core.Origins(lk.X) {
+				if x, ok := o.(*ssa.MakeMap); ok {
+					mk = x
+				}
+			}
+			if mk == nil {
+				continue
+			}
+			// the lookup's ok result governs a rejecting return
+			rejects := false
+			for _, r := range *lk.Referrers() {
+				ex, ok := r.(*ssa.Extract)
+				if !ok || ex.Index != 1 {
+					continue
+				}
+				for _, rr := range *ex.Referrers() {
+					if iff, ok := rr.(*ssa.If); ok && blockRejects(iff.Block().Succs[0]) {
+						rejects = true
+					}
+				}
+			}
+			if !rejects {
+				continue
+			}
+			n++
+			inserted := false
+			for _, r := range *mk.Referrers() {
+				if mu, ok := r.(*ssa.MapUpdate); ok && core.InCycle(mu.Block()) && (core.SameValue(mu.Key, lk.Index) || sameCallOnSameRecv(mu.Key, lk.Index)) {
+					inserted = true
+				}
+			}
+			// through a cell (the map variable is captured / spilled)
+			if !inserted {
+				for _, bb := range m.Fn.Blocks {
+					for _, i2 := range bb.Instrs {
+						if mu, ok := i2.(*ssa.MapUpdate); ok && core.InCycle(bb) {
+							for _, o := range core.Origins(mu.Map) {
+								if o == ssa.Value(mk) && (core.SamePath(mu.Key, lk.Index) || sameCallOnSameRecv(mu.Key, lk.Index)) {
+									inserted = true
+								}
+							}
+						}
+					}
+				}
+			}
+			key := fmt.Sprintf("%s/duplicate-pool-set#%d", m.H.TypeName, n)
+			c.Check(!core.InCycle(mk.Block()) && inserted, rule, key, lk.Pos(), "the set of pools already used is created before the route loop and every hop's pool is inserted into it",
+				fmt.Sprintf("the duplicate-pool set does not survive from hop to hop (created inside the loop: %v, hop inserted: %v): a route can pass through the same pool twice, each pass priced on the untouched pool, so the trade costs more / returns less than the limit that was checked", core.InCycle(mk.Block()), inserted))
+		}
+	}
+	return n
+}
+
+// sameCallOnSameRecv: both values are results of the same niladic method called on the same
+// receiver value (`swapper.GetID()` written twice).
+func sameCallOnSameRecv(a, b ssa.Value) bool {
+	ca, ok1 := core.Unwrap(a).(*ssa.Call)
+	cb, ok2 := core.Unwrap(b).(*ssa.Call)
+	if !ok1 || !ok2 || methodNameOfCall(ca) == "" || methodNameOfCall(ca) != methodNameOfCall(cb) {
+		return false
+	}
+	ra, rb := ca.Call.Value, cb.Call.Value
+	if !ca.Call.IsInvoke() {
+		if len(ca.Call.Args) != 1 || len(cb.Call.Args) != 1 {
+			return false
+		}
+		ra, rb = ca.Call.Args[0], cb.Call.Args[0]
+	} else if len(ca.Call.Args) != 0 || len(cb.Call.Args) != 0 {
+		return false
+	}
+	return core.Unwrap(ra) == core.Unwrap(rb)
 }
